@@ -478,6 +478,7 @@ pub fn c01_roundtrip(ctx: &Ctx, out: &mut RunOut) -> Result<(), Violation> {
         let d2 = guarded("load_from", || sim::load_from(&mut src))?
             .map_err(|e| Violation::new("load-failed", format!("cycle {c}: load of the saved bytes failed: {e}")))?;
         ctx.count_n("read-eintr-fired", src.eintr_fired);
+        ctx.event("c01-loaded", c as u64, sim::full_digest(&d2));
         let got = sim::from_doc(&d2);
         let n_x = std::cell::Cell::new(0usize);
         let extra = |_id: (u32, u16), o: &MObj| {
